@@ -38,6 +38,8 @@ var verifCycles = []struct {
 	{name: "loop-br", funcs: []verifFunc{{params: []byte{vI32}, export: "f", body: []byte{0x03, 0x40, 0x0c, 0x00, 0x0b}}}},
 	{name: "loop-br_if", funcs: []verifFunc{{params: []byte{vI32}, export: "f", body: []byte{0x03, 0x40, 0x20, 0x00, 0x0d, 0x00, 0x0b}}}},
 	{name: "loop-br_table", funcs: []verifFunc{{params: []byte{vI32}, export: "f", body: []byte{0x02, 0x40, 0x03, 0x40, 0x20, 0x00, 0x0e, 0x01, 0x00, 0x01, 0x0b, 0x0b}}}},
+	{name: "loop-switch-continue", funcs: []verifFunc{{params: []byte{vI32}, export: "f", body: []byte{0x03, 0x40, 0x02, 0x40, 0x20, 0x00, 0x0e, 0x02, 0x00, 0x01, 0x01, 0x0b, 0x0b}}}},
+	{name: "loop-switch-default", funcs: []verifFunc{{params: []byte{vI32}, export: "f", body: []byte{0x03, 0x40, 0x02, 0x40, 0x02, 0x40, 0x20, 0x00, 0x0e, 0x02, 0x00, 0x01, 0x02, 0x0b, 0x0b, 0x0b}}}},
 	{name: "nested-loops", funcs: []verifFunc{{params: []byte{vI32}, export: "f", body: []byte{0x03, 0x40, 0x03, 0x40, 0x20, 0x00, 0x0d, 0x00, 0x0b, 0x0c, 0x00, 0x0b}}}},
 	{name: "self-recursion", funcs: []verifFunc{{params: []byte{vI32}, export: "f", body: []byte{0x20, 0x00, 0x10, 0x00}}}},
 	{name: "mutual-recursion", funcs: []verifFunc{{params: []byte{vI32}, export: "f", body: []byte{0x20, 0x00, 0x10, 0x01}}, {params: []byte{vI32}, body: []byte{0x20, 0x00, 0x10, 0x00}}}},
@@ -57,7 +59,7 @@ func verifExitCode(err error) (uint32, bool) {
 // VerifC07_ClosedBeforeCycle: the module has been closed (what the context watcher does when the context is done) while the
 // guest is about to go round a cycle; with close-on-context-done compiled in, every cycle shape must end with the exit error
 // within a bounded number of steps, whatever the branch conditions are.
-//verif:opts split=shape:10 maxsteps=4000000
+//verif:opts split=shape:12 maxsteps=4000000
 func VerifC07_ClosedBeforeCycle() {
 	ctx := context.Background()
 	sh := verifCycles[verifrt.Choose("shape", len(verifCycles))]
@@ -89,7 +91,7 @@ func VerifC07_ClosedBeforeCycle() {
 // VerifC07_CycleInImportedModule: the call is made on module "app" (the module the watcher closes) while the cycle runs in
 // a function imported from module "lib" - entered directly from app (depth 1) or through another lib function (depth 2).
 // Closing app must stop the guest wherever it is spinning.
-//verif:opts split=shape:10 maxsteps=4000000
+//verif:opts split=shape:12 maxsteps=4000000
 func VerifC07_CycleInImportedModule() {
 	ctx := context.Background()
 	sh := verifCycles[verifrt.Choose("shape", len(verifCycles))]
